@@ -117,6 +117,17 @@ def mk_pass(sem, admissible, seen):
             if lb == ("sender",) and la in adm:
                 seen.add(la)
                 return True
+        if f[0] == "truth" and f[2] is True and f[1].op == "call" and f[1].info.rsplit("::", 1)[-1] == "contains" and len(f[1].args) == 2:
+            # `[a, b].contains(&info.sender)`: the sender is one of the listed principals, all of which must be admissible
+            w = sem.w
+            lst = w.ident(resolve(f[1].args[0]), expand_ws=False)
+            if lst.op == "call" and lst.info == "vec!" and lst.args:
+                lst = lst.args[0]
+            if lst.op == "array" and lst.args and sem.label(resolve(f[1].args[1])) == ("sender",):
+                labs = [sem.label(x) for x in lst.args]
+                if all(l in adm for l in labs):
+                    seen.update(labs)
+                    return True
         return False
     return pf
 
